@@ -26,6 +26,9 @@ func (ex *Exec) checkBudget(pos token.Pos) {
 	if ex.steps > ex.maxSteps {
 		ex.oof(pos, "path budget exceeded (%d steps)", ex.maxSteps)
 	}
+	if ex.paths > 60000 || len(ex.queries) > 120000 {
+		ex.oof(pos, "path budget exceeded (%d paths, %d queries): split the function or give helpers contracts", ex.paths, len(ex.queries))
+	}
 }
 
 // nthMatch: position of the n-th statement (source order) of the function whose text starts with the anchor.
